@@ -300,6 +300,15 @@ class Model:
         e.cover.append(("cap", sub, tuple(cmd.get("caps") or ())))
         return e
 
+    # ---- USER / PASS from a registered client: refused (462), identity untouched
+    def do_reuser(self, cid, cmd):
+        e = Exp("REUSER", ("C01", "C02", "C03"))
+        u = self.user_of(cid)
+        e.need("462", p0=u.nick)
+        e.shape = "reuser:" + cmd["what"]
+        e.cover.append(("reuser", cmd["what"]))
+        return e
+
     # ---- JOIN
     def do_join(self, cid, cmd):
         e = Exp("JOIN", ("C07", "C16", "C04"))
